@@ -562,6 +562,7 @@ Xfer(tw, wl, fca) ==
          else if (CurOp(self).op = "trylock") { ip[self] := ip[self] + 1; call mu_trylock(CurOp(self).lt); }
          else if (CurOp(self).op = "unlock") { ip[self] := ip[self] + 1; held[self] := 0; call mu_unlock(CurOp(self).lt, FALSE); }
          else if (CurOp(self).op = "unlockww") { ip[self] := ip[self] + 1; held[self] := 0; call mu_unlock(1, TRUE); }
+         else if (CurOp(self).op = "get") { ip[self] := ip[self] + 1; }                    \* client reads a cell (matters to the race detector only)
          else if (CurOp(self).op = "gate") { await GateOK(CurOp(self).x); ip[self] := ip[self] + 1; }   \* scenario device: start only once x threads are queued
          else if (CurOp(self).op = "set") { ip[self] := ip[self] + 1; data[CurOp(self).v] := CurOp(self).x; }
          else if (CurOp(self).op = "skipunless") {                                 \* after trylock
@@ -4185,9 +4186,8 @@ c0(self) == /\ pc[self] = "c0"
                                                                                               wq, 
                                                                                               dw, 
                                                                                               k >>
-                                                                         ELSE /\ IF CurOp(self).op = "gate"
-                                                                                    THEN /\ GateOK(CurOp(self).x)
-                                                                                         /\ ip' = [ip EXCEPT ![self] = ip[self] + 1]
+                                                                         ELSE /\ IF CurOp(self).op = "get"
+                                                                                    THEN /\ ip' = [ip EXCEPT ![self] = ip[self] + 1]
                                                                                          /\ pc' = [pc EXCEPT ![self] = "c0"]
                                                                                          /\ UNCHANGED << sem, 
                                                                                                          data, 
@@ -4230,11 +4230,12 @@ c0(self) == /\ pc[self] = "c0"
                                                                                                          wq, 
                                                                                                          dw, 
                                                                                                          k >>
-                                                                                    ELSE /\ IF CurOp(self).op = "set"
-                                                                                               THEN /\ ip' = [ip EXCEPT ![self] = ip[self] + 1]
-                                                                                                    /\ data' = [data EXCEPT ![CurOp(self).v] = CurOp(self).x]
+                                                                                    ELSE /\ IF CurOp(self).op = "gate"
+                                                                                               THEN /\ GateOK(CurOp(self).x)
+                                                                                                    /\ ip' = [ip EXCEPT ![self] = ip[self] + 1]
                                                                                                     /\ pc' = [pc EXCEPT ![self] = "c0"]
                                                                                                     /\ UNCHANGED << sem, 
+                                                                                                                    data, 
                                                                                                                     note, 
                                                                                                                     nreg, 
                                                                                                                     ret, 
@@ -4274,8 +4275,9 @@ c0(self) == /\ pc[self] = "c0"
                                                                                                                     wq, 
                                                                                                                     dw, 
                                                                                                                     k >>
-                                                                                               ELSE /\ IF CurOp(self).op = "skipunless"
-                                                                                                          THEN /\ ip' = [ip EXCEPT ![self] = IF ret[self] # 1 THEN ip[self] + 1 + CurOp(self).skip ELSE ip[self] + 1]
+                                                                                               ELSE /\ IF CurOp(self).op = "set"
+                                                                                                          THEN /\ ip' = [ip EXCEPT ![self] = ip[self] + 1]
+                                                                                                               /\ data' = [data EXCEPT ![CurOp(self).v] = CurOp(self).x]
                                                                                                                /\ pc' = [pc EXCEPT ![self] = "c0"]
                                                                                                                /\ UNCHANGED << sem, 
                                                                                                                                note, 
@@ -4317,36 +4319,9 @@ c0(self) == /\ pc[self] = "c0"
                                                                                                                                wq, 
                                                                                                                                dw, 
                                                                                                                                k >>
-                                                                                                          ELSE /\ IF CurOp(self).op = "muwait"
-                                                                                                                     THEN /\ ip' = [ip EXCEPT ![self] = ip[self] + 1]
-                                                                                                                          /\ /\ c' = [c EXCEPT ![self] = CurOp(self).c]
-                                                                                                                             /\ cn_' = [cn_ EXCEPT ![self] = CurOp(self).cn]
-                                                                                                                             /\ dl_' = [dl_ EXCEPT ![self] = CurOp(self).dl]
-                                                                                                                             /\ stack' = [stack EXCEPT ![self] = << [ procedure |->  "mu_wait",
-                                                                                                                                                                      pc        |->  "c0",
-                                                                                                                                                                      old_mu_w  |->  old_mu_w[self],
-                                                                                                                                                                      lt_       |->  lt_[self],
-                                                                                                                                                                      first     |->  first[self],
-                                                                                                                                                                      out_      |->  out_[self],
-                                                                                                                                                                      rc_       |->  rc_[self],
-                                                                                                                                                                      hadw      |->  hadw[self],
-                                                                                                                                                                      ata       |->  ata[self],
-                                                                                                                                                                      so_       |->  so_[self],
-                                                                                                                                                                      havel     |->  havel[self],
-                                                                                                                                                                      c         |->  c[self],
-                                                                                                                                                                      dl_       |->  dl_[self],
-                                                                                                                                                                      cn_       |->  cn_[self] ] >>
-                                                                                                                                                                  \o stack[self]]
-                                                                                                                          /\ old_mu_w' = [old_mu_w EXCEPT ![self] = 0]
-                                                                                                                          /\ lt_' = [lt_ EXCEPT ![self] = 0]
-                                                                                                                          /\ first' = [first EXCEPT ![self] = TRUE]
-                                                                                                                          /\ out_' = [out_ EXCEPT ![self] = 0]
-                                                                                                                          /\ rc_' = [rc_ EXCEPT ![self] = 0]
-                                                                                                                          /\ hadw' = [hadw EXCEPT ![self] = FALSE]
-                                                                                                                          /\ ata' = [ata EXCEPT ![self] = 0]
-                                                                                                                          /\ so_' = [so_ EXCEPT ![self] = 0]
-                                                                                                                          /\ havel' = [havel EXCEPT ![self] = FALSE]
-                                                                                                                          /\ pc' = [pc EXCEPT ![self] = "mw_1_ld"]
+                                                                                                          ELSE /\ IF CurOp(self).op = "skipunless"
+                                                                                                                     THEN /\ ip' = [ip EXCEPT ![self] = IF ret[self] # 1 THEN ip[self] + 1 + CurOp(self).skip ELSE ip[self] + 1]
+                                                                                                                          /\ pc' = [pc EXCEPT ![self] = "c0"]
                                                                                                                           /\ UNCHANGED << sem, 
                                                                                                                                           note, 
                                                                                                                                           nreg, 
@@ -4356,6 +4331,19 @@ c0(self) == /\ pc[self] = "c0"
                                                                                                                                           nalloc, 
                                                                                                                                           muFreed, 
                                                                                                                                           refs, 
+                                                                                                                                          stack, 
+                                                                                                                                          c, 
+                                                                                                                                          dl_, 
+                                                                                                                                          cn_, 
+                                                                                                                                          old_mu_w, 
+                                                                                                                                          lt_, 
+                                                                                                                                          first, 
+                                                                                                                                          out_, 
+                                                                                                                                          rc_, 
+                                                                                                                                          hadw, 
+                                                                                                                                          ata, 
+                                                                                                                                          so_, 
+                                                                                                                                          havel, 
                                                                                                                                           all, 
                                                                                                                                           old_c, 
                                                                                                                                           tws, 
@@ -4374,44 +4362,43 @@ c0(self) == /\ pc[self] = "c0"
                                                                                                                                           wq, 
                                                                                                                                           dw, 
                                                                                                                                           k >>
-                                                                                                                     ELSE /\ IF CurOp(self).op = "cvwait"
+                                                                                                                     ELSE /\ IF CurOp(self).op = "muwait"
                                                                                                                                 THEN /\ ip' = [ip EXCEPT ![self] = ip[self] + 1]
-                                                                                                                                     /\ IF mw[self] = 0
-                                                                                                                                           THEN /\ IF pool # <<>>
-                                                                                                                                                      THEN /\ mw' = [mw EXCEPT ![self] = Head(pool)]
-                                                                                                                                                           /\ pool' = Tail(pool)
-                                                                                                                                                           /\ UNCHANGED nalloc
-                                                                                                                                                      ELSE /\ mw' = [mw EXCEPT ![self] = nalloc + 1]
-                                                                                                                                                           /\ nalloc' = nalloc + 1
-                                                                                                                                                           /\ pool' = pool
-                                                                                                                                           ELSE /\ TRUE
-                                                                                                                                                /\ UNCHANGED << mw, 
-                                                                                                                                                                pool, 
-                                                                                                                                                                nalloc >>
-                                                                                                                                     /\ /\ cn' = [cn EXCEPT ![self] = CurOp(self).cn]
-                                                                                                                                        /\ dl' = [dl EXCEPT ![self] = CurOp(self).dl]
-                                                                                                                                        /\ gen' = [gen EXCEPT ![self] = CurOp(self).x = 9]
-                                                                                                                                        /\ stack' = [stack EXCEPT ![self] = << [ procedure |->  "cv_wait",
+                                                                                                                                     /\ /\ c' = [c EXCEPT ![self] = CurOp(self).c]
+                                                                                                                                        /\ cn_' = [cn_ EXCEPT ![self] = CurOp(self).cn]
+                                                                                                                                        /\ dl_' = [dl_ EXCEPT ![self] = CurOp(self).dl]
+                                                                                                                                        /\ stack' = [stack EXCEPT ![self] = << [ procedure |->  "mu_wait",
                                                                                                                                                                                  pc        |->  "c0",
-                                                                                                                                                                                 old_cv    |->  old_cv[self],
-                                                                                                                                                                                 lt_c      |->  lt_c[self],
-                                                                                                                                                                                 rc_c      |->  rc_c[self],
-                                                                                                                                                                                 so        |->  so[self],
-                                                                                                                                                                                 out       |->  out[self],
-                                                                                                                                                                                 dl        |->  dl[self],
-                                                                                                                                                                                 cn        |->  cn[self],
-                                                                                                                                                                                 gen       |->  gen[self] ] >>
+                                                                                                                                                                                 old_mu_w  |->  old_mu_w[self],
+                                                                                                                                                                                 lt_       |->  lt_[self],
+                                                                                                                                                                                 first     |->  first[self],
+                                                                                                                                                                                 out_      |->  out_[self],
+                                                                                                                                                                                 rc_       |->  rc_[self],
+                                                                                                                                                                                 hadw      |->  hadw[self],
+                                                                                                                                                                                 ata       |->  ata[self],
+                                                                                                                                                                                 so_       |->  so_[self],
+                                                                                                                                                                                 havel     |->  havel[self],
+                                                                                                                                                                                 c         |->  c[self],
+                                                                                                                                                                                 dl_       |->  dl_[self],
+                                                                                                                                                                                 cn_       |->  cn_[self] ] >>
                                                                                                                                                                              \o stack[self]]
-                                                                                                                                     /\ old_cv' = [old_cv EXCEPT ![self] = 0]
-                                                                                                                                     /\ lt_c' = [lt_c EXCEPT ![self] = 0]
-                                                                                                                                     /\ rc_c' = [rc_c EXCEPT ![self] = 0]
-                                                                                                                                     /\ so' = [so EXCEPT ![self] = 0]
-                                                                                                                                     /\ out' = [out EXCEPT ![self] = 0]
-                                                                                                                                     /\ pc' = [pc EXCEPT ![self] = "cw_1_st"]
+                                                                                                                                     /\ old_mu_w' = [old_mu_w EXCEPT ![self] = 0]
+                                                                                                                                     /\ lt_' = [lt_ EXCEPT ![self] = 0]
+                                                                                                                                     /\ first' = [first EXCEPT ![self] = TRUE]
+                                                                                                                                     /\ out_' = [out_ EXCEPT ![self] = 0]
+                                                                                                                                     /\ rc_' = [rc_ EXCEPT ![self] = 0]
+                                                                                                                                     /\ hadw' = [hadw EXCEPT ![self] = FALSE]
+                                                                                                                                     /\ ata' = [ata EXCEPT ![self] = 0]
+                                                                                                                                     /\ so_' = [so_ EXCEPT ![self] = 0]
+                                                                                                                                     /\ havel' = [havel EXCEPT ![self] = FALSE]
+                                                                                                                                     /\ pc' = [pc EXCEPT ![self] = "mw_1_ld"]
                                                                                                                                      /\ UNCHANGED << sem, 
                                                                                                                                                      note, 
                                                                                                                                                      nreg, 
                                                                                                                                                      ret, 
+                                                                                                                                                     mw, 
+                                                                                                                                                     pool, 
+                                                                                                                                                     nalloc, 
                                                                                                                                                      muFreed, 
                                                                                                                                                      refs, 
                                                                                                                                                      all, 
@@ -4419,65 +4406,57 @@ c0(self) == /\ pc[self] = "c0"
                                                                                                                                                      tws, 
                                                                                                                                                      alr, 
                                                                                                                                                      rmq, 
+                                                                                                                                                     dl, 
+                                                                                                                                                     cn, 
+                                                                                                                                                     gen, 
+                                                                                                                                                     old_cv, 
+                                                                                                                                                     lt_c, 
+                                                                                                                                                     rc_c, 
+                                                                                                                                                     so, 
+                                                                                                                                                     out, 
                                                                                                                                                      ndl, 
                                                                                                                                                      old, 
                                                                                                                                                      wq, 
                                                                                                                                                      dw, 
                                                                                                                                                      k >>
-                                                                                                                                ELSE /\ IF CurOp(self).op = "cvloop"
-                                                                                                                                           THEN /\ IF data[CurOp(self).v] = 0 /\ ret[self] \notin {ETIMEDOUT, ECANCELED}
-                                                                                                                                                      THEN /\ IF mw[self] = 0
-                                                                                                                                                                 THEN /\ IF pool # <<>>
-                                                                                                                                                                            THEN /\ mw' = [mw EXCEPT ![self] = Head(pool)]
-                                                                                                                                                                                 /\ pool' = Tail(pool)
-                                                                                                                                                                                 /\ UNCHANGED nalloc
-                                                                                                                                                                            ELSE /\ mw' = [mw EXCEPT ![self] = nalloc + 1]
-                                                                                                                                                                                 /\ nalloc' = nalloc + 1
-                                                                                                                                                                                 /\ pool' = pool
-                                                                                                                                                                 ELSE /\ TRUE
-                                                                                                                                                                      /\ UNCHANGED << mw, 
-                                                                                                                                                                                      pool, 
-                                                                                                                                                                                      nalloc >>
-                                                                                                                                                           /\ /\ cn' = [cn EXCEPT ![self] = CurOp(self).cn]
-                                                                                                                                                              /\ dl' = [dl EXCEPT ![self] = CurOp(self).dl]
-                                                                                                                                                              /\ gen' = [gen EXCEPT ![self] = CurOp(self).x = 9]
-                                                                                                                                                              /\ stack' = [stack EXCEPT ![self] = << [ procedure |->  "cv_wait",
-                                                                                                                                                                                                       pc        |->  "c0",
-                                                                                                                                                                                                       old_cv    |->  old_cv[self],
-                                                                                                                                                                                                       lt_c      |->  lt_c[self],
-                                                                                                                                                                                                       rc_c      |->  rc_c[self],
-                                                                                                                                                                                                       so        |->  so[self],
-                                                                                                                                                                                                       out       |->  out[self],
-                                                                                                                                                                                                       dl        |->  dl[self],
-                                                                                                                                                                                                       cn        |->  cn[self],
-                                                                                                                                                                                                       gen       |->  gen[self] ] >>
-                                                                                                                                                                                                   \o stack[self]]
-                                                                                                                                                           /\ old_cv' = [old_cv EXCEPT ![self] = 0]
-                                                                                                                                                           /\ lt_c' = [lt_c EXCEPT ![self] = 0]
-                                                                                                                                                           /\ rc_c' = [rc_c EXCEPT ![self] = 0]
-                                                                                                                                                           /\ so' = [so EXCEPT ![self] = 0]
-                                                                                                                                                           /\ out' = [out EXCEPT ![self] = 0]
-                                                                                                                                                           /\ pc' = [pc EXCEPT ![self] = "cw_1_st"]
-                                                                                                                                                           /\ UNCHANGED << ret, 
-                                                                                                                                                                           ip >>
-                                                                                                                                                      ELSE /\ ip' = [ip EXCEPT ![self] = ip[self] + 1]
-                                                                                                                                                           /\ ret' = [ret EXCEPT ![self] = -1]
-                                                                                                                                                           /\ pc' = [pc EXCEPT ![self] = "c0"]
+                                                                                                                                ELSE /\ IF CurOp(self).op = "cvwait"
+                                                                                                                                           THEN /\ ip' = [ip EXCEPT ![self] = ip[self] + 1]
+                                                                                                                                                /\ IF mw[self] = 0
+                                                                                                                                                      THEN /\ IF pool # <<>>
+                                                                                                                                                                 THEN /\ mw' = [mw EXCEPT ![self] = Head(pool)]
+                                                                                                                                                                      /\ pool' = Tail(pool)
+                                                                                                                                                                      /\ UNCHANGED nalloc
+                                                                                                                                                                 ELSE /\ mw' = [mw EXCEPT ![self] = nalloc + 1]
+                                                                                                                                                                      /\ nalloc' = nalloc + 1
+                                                                                                                                                                      /\ pool' = pool
+                                                                                                                                                      ELSE /\ TRUE
                                                                                                                                                            /\ UNCHANGED << mw, 
                                                                                                                                                                            pool, 
-                                                                                                                                                                           nalloc, 
-                                                                                                                                                                           stack, 
-                                                                                                                                                                           dl, 
-                                                                                                                                                                           cn, 
-                                                                                                                                                                           gen, 
-                                                                                                                                                                           old_cv, 
-                                                                                                                                                                           lt_c, 
-                                                                                                                                                                           rc_c, 
-                                                                                                                                                                           so, 
-                                                                                                                                                                           out >>
+                                                                                                                                                                           nalloc >>
+                                                                                                                                                /\ /\ cn' = [cn EXCEPT ![self] = CurOp(self).cn]
+                                                                                                                                                   /\ dl' = [dl EXCEPT ![self] = CurOp(self).dl]
+                                                                                                                                                   /\ gen' = [gen EXCEPT ![self] = CurOp(self).x = 9]
+                                                                                                                                                   /\ stack' = [stack EXCEPT ![self] = << [ procedure |->  "cv_wait",
+                                                                                                                                                                                            pc        |->  "c0",
+                                                                                                                                                                                            old_cv    |->  old_cv[self],
+                                                                                                                                                                                            lt_c      |->  lt_c[self],
+                                                                                                                                                                                            rc_c      |->  rc_c[self],
+                                                                                                                                                                                            so        |->  so[self],
+                                                                                                                                                                                            out       |->  out[self],
+                                                                                                                                                                                            dl        |->  dl[self],
+                                                                                                                                                                                            cn        |->  cn[self],
+                                                                                                                                                                                            gen       |->  gen[self] ] >>
+                                                                                                                                                                                        \o stack[self]]
+                                                                                                                                                /\ old_cv' = [old_cv EXCEPT ![self] = 0]
+                                                                                                                                                /\ lt_c' = [lt_c EXCEPT ![self] = 0]
+                                                                                                                                                /\ rc_c' = [rc_c EXCEPT ![self] = 0]
+                                                                                                                                                /\ so' = [so EXCEPT ![self] = 0]
+                                                                                                                                                /\ out' = [out EXCEPT ![self] = 0]
+                                                                                                                                                /\ pc' = [pc EXCEPT ![self] = "cw_1_st"]
                                                                                                                                                 /\ UNCHANGED << sem, 
                                                                                                                                                                 note, 
                                                                                                                                                                 nreg, 
+                                                                                                                                                                ret, 
                                                                                                                                                                 muFreed, 
                                                                                                                                                                 refs, 
                                                                                                                                                                 all, 
@@ -4490,34 +4469,60 @@ c0(self) == /\ pc[self] = "c0"
                                                                                                                                                                 wq, 
                                                                                                                                                                 dw, 
                                                                                                                                                                 k >>
-                                                                                                                                           ELSE /\ IF CurOp(self).op = "waitn"
-                                                                                                                                                      THEN /\ ip' = [ip EXCEPT ![self] = ip[self] + 1]
-                                                                                                                                                           /\ IF mw[self] = 0
-                                                                                                                                                                 THEN /\ IF pool # <<>>
-                                                                                                                                                                            THEN /\ mw' = [mw EXCEPT ![self] = Head(pool)]
-                                                                                                                                                                                 /\ pool' = Tail(pool)
-                                                                                                                                                                                 /\ UNCHANGED nalloc
-                                                                                                                                                                            ELSE /\ mw' = [mw EXCEPT ![self] = nalloc + 1]
-                                                                                                                                                                                 /\ nalloc' = nalloc + 1
-                                                                                                                                                                                 /\ pool' = pool
-                                                                                                                                                                 ELSE /\ TRUE
+                                                                                                                                           ELSE /\ IF CurOp(self).op = "cvloop"
+                                                                                                                                                      THEN /\ IF data[CurOp(self).v] = 0 /\ ret[self] \notin {ETIMEDOUT, ECANCELED}
+                                                                                                                                                                 THEN /\ IF mw[self] = 0
+                                                                                                                                                                            THEN /\ IF pool # <<>>
+                                                                                                                                                                                       THEN /\ mw' = [mw EXCEPT ![self] = Head(pool)]
+                                                                                                                                                                                            /\ pool' = Tail(pool)
+                                                                                                                                                                                            /\ UNCHANGED nalloc
+                                                                                                                                                                                       ELSE /\ mw' = [mw EXCEPT ![self] = nalloc + 1]
+                                                                                                                                                                                            /\ nalloc' = nalloc + 1
+                                                                                                                                                                                            /\ pool' = pool
+                                                                                                                                                                            ELSE /\ TRUE
+                                                                                                                                                                                 /\ UNCHANGED << mw, 
+                                                                                                                                                                                                 pool, 
+                                                                                                                                                                                                 nalloc >>
+                                                                                                                                                                      /\ /\ cn' = [cn EXCEPT ![self] = CurOp(self).cn]
+                                                                                                                                                                         /\ dl' = [dl EXCEPT ![self] = CurOp(self).dl]
+                                                                                                                                                                         /\ gen' = [gen EXCEPT ![self] = CurOp(self).x = 9]
+                                                                                                                                                                         /\ stack' = [stack EXCEPT ![self] = << [ procedure |->  "cv_wait",
+                                                                                                                                                                                                                  pc        |->  "c0",
+                                                                                                                                                                                                                  old_cv    |->  old_cv[self],
+                                                                                                                                                                                                                  lt_c      |->  lt_c[self],
+                                                                                                                                                                                                                  rc_c      |->  rc_c[self],
+                                                                                                                                                                                                                  so        |->  so[self],
+                                                                                                                                                                                                                  out       |->  out[self],
+                                                                                                                                                                                                                  dl        |->  dl[self],
+                                                                                                                                                                                                                  cn        |->  cn[self],
+                                                                                                                                                                                                                  gen       |->  gen[self] ] >>
+                                                                                                                                                                                                              \o stack[self]]
+                                                                                                                                                                      /\ old_cv' = [old_cv EXCEPT ![self] = 0]
+                                                                                                                                                                      /\ lt_c' = [lt_c EXCEPT ![self] = 0]
+                                                                                                                                                                      /\ rc_c' = [rc_c EXCEPT ![self] = 0]
+                                                                                                                                                                      /\ so' = [so EXCEPT ![self] = 0]
+                                                                                                                                                                      /\ out' = [out EXCEPT ![self] = 0]
+                                                                                                                                                                      /\ pc' = [pc EXCEPT ![self] = "cw_1_st"]
+                                                                                                                                                                      /\ UNCHANGED << ret, 
+                                                                                                                                                                                      ip >>
+                                                                                                                                                                 ELSE /\ ip' = [ip EXCEPT ![self] = ip[self] + 1]
+                                                                                                                                                                      /\ ret' = [ret EXCEPT ![self] = -1]
+                                                                                                                                                                      /\ pc' = [pc EXCEPT ![self] = "c0"]
                                                                                                                                                                       /\ UNCHANGED << mw, 
                                                                                                                                                                                       pool, 
-                                                                                                                                                                                      nalloc >>
-                                                                                                                                                           /\ /\ ndl' = [ndl EXCEPT ![self] = CurOp(self).dl]
-                                                                                                                                                              /\ stack' = [stack EXCEPT ![self] = << [ procedure |->  "wait_n",
-                                                                                                                                                                                                       pc        |->  "c0",
-                                                                                                                                                                                                       old       |->  old[self],
-                                                                                                                                                                                                       wq        |->  wq[self],
-                                                                                                                                                                                                       ndl       |->  ndl[self] ] >>
-                                                                                                                                                                                                   \o stack[self]]
-                                                                                                                                                           /\ old' = [old EXCEPT ![self] = 0]
-                                                                                                                                                           /\ wq' = [wq EXCEPT ![self] = FALSE]
-                                                                                                                                                           /\ pc' = [pc EXCEPT ![self] = "wn_1_st"]
+                                                                                                                                                                                      nalloc, 
+                                                                                                                                                                                      stack, 
+                                                                                                                                                                                      dl, 
+                                                                                                                                                                                      cn, 
+                                                                                                                                                                                      gen, 
+                                                                                                                                                                                      old_cv, 
+                                                                                                                                                                                      lt_c, 
+                                                                                                                                                                                      rc_c, 
+                                                                                                                                                                                      so, 
+                                                                                                                                                                                      out >>
                                                                                                                                                            /\ UNCHANGED << sem, 
                                                                                                                                                                            note, 
                                                                                                                                                                            nreg, 
-                                                                                                                                                                           ret, 
                                                                                                                                                                            muFreed, 
                                                                                                                                                                            refs, 
                                                                                                                                                                            all, 
@@ -4525,47 +4530,39 @@ c0(self) == /\ pc[self] = "c0"
                                                                                                                                                                            tws, 
                                                                                                                                                                            alr, 
                                                                                                                                                                            rmq, 
+                                                                                                                                                                           ndl, 
+                                                                                                                                                                           old, 
+                                                                                                                                                                           wq, 
                                                                                                                                                                            dw, 
                                                                                                                                                                            k >>
-                                                                                                                                                      ELSE /\ IF CurOp(self).op = "waitnloop"
-                                                                                                                                                                 THEN /\ IF data[CurOp(self).v] = 0 /\ ret[self] # 1
-                                                                                                                                                                            THEN /\ IF mw[self] = 0
-                                                                                                                                                                                       THEN /\ IF pool # <<>>
-                                                                                                                                                                                                  THEN /\ mw' = [mw EXCEPT ![self] = Head(pool)]
-                                                                                                                                                                                                       /\ pool' = Tail(pool)
-                                                                                                                                                                                                       /\ UNCHANGED nalloc
-                                                                                                                                                                                                  ELSE /\ mw' = [mw EXCEPT ![self] = nalloc + 1]
-                                                                                                                                                                                                       /\ nalloc' = nalloc + 1
-                                                                                                                                                                                                       /\ pool' = pool
-                                                                                                                                                                                       ELSE /\ TRUE
-                                                                                                                                                                                            /\ UNCHANGED << mw, 
-                                                                                                                                                                                                            pool, 
-                                                                                                                                                                                                            nalloc >>
-                                                                                                                                                                                 /\ /\ ndl' = [ndl EXCEPT ![self] = CurOp(self).dl]
-                                                                                                                                                                                    /\ stack' = [stack EXCEPT ![self] = << [ procedure |->  "wait_n",
-                                                                                                                                                                                                                             pc        |->  "c0",
-                                                                                                                                                                                                                             old       |->  old[self],
-                                                                                                                                                                                                                             wq        |->  wq[self],
-                                                                                                                                                                                                                             ndl       |->  ndl[self] ] >>
-                                                                                                                                                                                                                         \o stack[self]]
-                                                                                                                                                                                 /\ old' = [old EXCEPT ![self] = 0]
-                                                                                                                                                                                 /\ wq' = [wq EXCEPT ![self] = FALSE]
-                                                                                                                                                                                 /\ pc' = [pc EXCEPT ![self] = "wn_1_st"]
-                                                                                                                                                                                 /\ UNCHANGED << ret, 
-                                                                                                                                                                                                 ip >>
-                                                                                                                                                                            ELSE /\ ip' = [ip EXCEPT ![self] = ip[self] + 1]
-                                                                                                                                                                                 /\ ret' = [ret EXCEPT ![self] = -1]
-                                                                                                                                                                                 /\ pc' = [pc EXCEPT ![self] = "c0"]
+                                                                                                                                                      ELSE /\ IF CurOp(self).op = "waitn"
+                                                                                                                                                                 THEN /\ ip' = [ip EXCEPT ![self] = ip[self] + 1]
+                                                                                                                                                                      /\ IF mw[self] = 0
+                                                                                                                                                                            THEN /\ IF pool # <<>>
+                                                                                                                                                                                       THEN /\ mw' = [mw EXCEPT ![self] = Head(pool)]
+                                                                                                                                                                                            /\ pool' = Tail(pool)
+                                                                                                                                                                                            /\ UNCHANGED nalloc
+                                                                                                                                                                                       ELSE /\ mw' = [mw EXCEPT ![self] = nalloc + 1]
+                                                                                                                                                                                            /\ nalloc' = nalloc + 1
+                                                                                                                                                                                            /\ pool' = pool
+                                                                                                                                                                            ELSE /\ TRUE
                                                                                                                                                                                  /\ UNCHANGED << mw, 
                                                                                                                                                                                                  pool, 
-                                                                                                                                                                                                 nalloc, 
-                                                                                                                                                                                                 stack, 
-                                                                                                                                                                                                 ndl, 
-                                                                                                                                                                                                 old, 
-                                                                                                                                                                                                 wq >>
+                                                                                                                                                                                                 nalloc >>
+                                                                                                                                                                      /\ /\ ndl' = [ndl EXCEPT ![self] = CurOp(self).dl]
+                                                                                                                                                                         /\ stack' = [stack EXCEPT ![self] = << [ procedure |->  "wait_n",
+                                                                                                                                                                                                                  pc        |->  "c0",
+                                                                                                                                                                                                                  old       |->  old[self],
+                                                                                                                                                                                                                  wq        |->  wq[self],
+                                                                                                                                                                                                                  ndl       |->  ndl[self] ] >>
+                                                                                                                                                                                                              \o stack[self]]
+                                                                                                                                                                      /\ old' = [old EXCEPT ![self] = 0]
+                                                                                                                                                                      /\ wq' = [wq EXCEPT ![self] = FALSE]
+                                                                                                                                                                      /\ pc' = [pc EXCEPT ![self] = "wn_1_st"]
                                                                                                                                                                       /\ UNCHANGED << sem, 
                                                                                                                                                                                       note, 
                                                                                                                                                                                       nreg, 
+                                                                                                                                                                                      ret, 
                                                                                                                                                                                       muFreed, 
                                                                                                                                                                                       refs, 
                                                                                                                                                                                       all, 
@@ -4575,33 +4572,57 @@ c0(self) == /\ pc[self] = "c0"
                                                                                                                                                                                       rmq, 
                                                                                                                                                                                       dw, 
                                                                                                                                                                                       k >>
-                                                                                                                                                                 ELSE /\ IF CurOp(self).op = "signal"
-                                                                                                                                                                            THEN /\ ip' = [ip EXCEPT ![self] = ip[self] + 1]
-                                                                                                                                                                                 /\ /\ all' = [all EXCEPT ![self] = FALSE]
-                                                                                                                                                                                    /\ stack' = [stack EXCEPT ![self] = << [ procedure |->  "cv_wake",
-                                                                                                                                                                                                                             pc        |->  "c0",
-                                                                                                                                                                                                                             old_c     |->  old_c[self],
-                                                                                                                                                                                                                             tws       |->  tws[self],
-                                                                                                                                                                                                                             alr       |->  alr[self],
-                                                                                                                                                                                                                             rmq       |->  rmq[self],
-                                                                                                                                                                                                                             all       |->  all[self] ] >>
-                                                                                                                                                                                                                         \o stack[self]]
-                                                                                                                                                                                 /\ old_c' = [old_c EXCEPT ![self] = 0]
-                                                                                                                                                                                 /\ tws' = [tws EXCEPT ![self] = <<>>]
-                                                                                                                                                                                 /\ alr' = [alr EXCEPT ![self] = FALSE]
-                                                                                                                                                                                 /\ rmq' = [rmq EXCEPT ![self] = <<>>]
-                                                                                                                                                                                 /\ pc' = [pc EXCEPT ![self] = "cs_1_ld"]
+                                                                                                                                                                 ELSE /\ IF CurOp(self).op = "waitnloop"
+                                                                                                                                                                            THEN /\ IF data[CurOp(self).v] = 0 /\ ret[self] # 1
+                                                                                                                                                                                       THEN /\ IF mw[self] = 0
+                                                                                                                                                                                                  THEN /\ IF pool # <<>>
+                                                                                                                                                                                                             THEN /\ mw' = [mw EXCEPT ![self] = Head(pool)]
+                                                                                                                                                                                                                  /\ pool' = Tail(pool)
+                                                                                                                                                                                                                  /\ UNCHANGED nalloc
+                                                                                                                                                                                                             ELSE /\ mw' = [mw EXCEPT ![self] = nalloc + 1]
+                                                                                                                                                                                                                  /\ nalloc' = nalloc + 1
+                                                                                                                                                                                                                  /\ pool' = pool
+                                                                                                                                                                                                  ELSE /\ TRUE
+                                                                                                                                                                                                       /\ UNCHANGED << mw, 
+                                                                                                                                                                                                                       pool, 
+                                                                                                                                                                                                                       nalloc >>
+                                                                                                                                                                                            /\ /\ ndl' = [ndl EXCEPT ![self] = CurOp(self).dl]
+                                                                                                                                                                                               /\ stack' = [stack EXCEPT ![self] = << [ procedure |->  "wait_n",
+                                                                                                                                                                                                                                        pc        |->  "c0",
+                                                                                                                                                                                                                                        old       |->  old[self],
+                                                                                                                                                                                                                                        wq        |->  wq[self],
+                                                                                                                                                                                                                                        ndl       |->  ndl[self] ] >>
+                                                                                                                                                                                                                                    \o stack[self]]
+                                                                                                                                                                                            /\ old' = [old EXCEPT ![self] = 0]
+                                                                                                                                                                                            /\ wq' = [wq EXCEPT ![self] = FALSE]
+                                                                                                                                                                                            /\ pc' = [pc EXCEPT ![self] = "wn_1_st"]
+                                                                                                                                                                                            /\ UNCHANGED << ret, 
+                                                                                                                                                                                                            ip >>
+                                                                                                                                                                                       ELSE /\ ip' = [ip EXCEPT ![self] = ip[self] + 1]
+                                                                                                                                                                                            /\ ret' = [ret EXCEPT ![self] = -1]
+                                                                                                                                                                                            /\ pc' = [pc EXCEPT ![self] = "c0"]
+                                                                                                                                                                                            /\ UNCHANGED << mw, 
+                                                                                                                                                                                                            pool, 
+                                                                                                                                                                                                            nalloc, 
+                                                                                                                                                                                                            stack, 
+                                                                                                                                                                                                            ndl, 
+                                                                                                                                                                                                            old, 
+                                                                                                                                                                                                            wq >>
                                                                                                                                                                                  /\ UNCHANGED << sem, 
                                                                                                                                                                                                  note, 
                                                                                                                                                                                                  nreg, 
-                                                                                                                                                                                                 ret, 
                                                                                                                                                                                                  muFreed, 
                                                                                                                                                                                                  refs, 
+                                                                                                                                                                                                 all, 
+                                                                                                                                                                                                 old_c, 
+                                                                                                                                                                                                 tws, 
+                                                                                                                                                                                                 alr, 
+                                                                                                                                                                                                 rmq, 
                                                                                                                                                                                                  dw, 
                                                                                                                                                                                                  k >>
-                                                                                                                                                                            ELSE /\ IF CurOp(self).op = "broadcast"
+                                                                                                                                                                            ELSE /\ IF CurOp(self).op = "signal"
                                                                                                                                                                                        THEN /\ ip' = [ip EXCEPT ![self] = ip[self] + 1]
-                                                                                                                                                                                            /\ /\ all' = [all EXCEPT ![self] = TRUE]
+                                                                                                                                                                                            /\ /\ all' = [all EXCEPT ![self] = FALSE]
                                                                                                                                                                                                /\ stack' = [stack EXCEPT ![self] = << [ procedure |->  "cv_wake",
                                                                                                                                                                                                                                         pc        |->  "c0",
                                                                                                                                                                                                                                         old_c     |->  old_c[self],
@@ -4623,84 +4644,108 @@ c0(self) == /\ pc[self] = "c0"
                                                                                                                                                                                                             refs, 
                                                                                                                                                                                                             dw, 
                                                                                                                                                                                                             k >>
-                                                                                                                                                                                       ELSE /\ IF CurOp(self).op = "debug"
+                                                                                                                                                                                       ELSE /\ IF CurOp(self).op = "broadcast"
                                                                                                                                                                                                   THEN /\ ip' = [ip EXCEPT ![self] = ip[self] + 1]
-                                                                                                                                                                                                       /\ stack' = [stack EXCEPT ![self] = << [ procedure |->  "debug_state",
-                                                                                                                                                                                                                                                pc        |->  "c0",
-                                                                                                                                                                                                                                                dw        |->  dw[self],
-                                                                                                                                                                                                                                                k         |->  k[self] ] >>
-                                                                                                                                                                                                                                            \o stack[self]]
-                                                                                                                                                                                                       /\ dw' = [dw EXCEPT ![self] = 0]
-                                                                                                                                                                                                       /\ k' = [k EXCEPT ![self] = 0]
-                                                                                                                                                                                                       /\ pc' = [pc EXCEPT ![self] = "db_1_ld"]
+                                                                                                                                                                                                       /\ /\ all' = [all EXCEPT ![self] = TRUE]
+                                                                                                                                                                                                          /\ stack' = [stack EXCEPT ![self] = << [ procedure |->  "cv_wake",
+                                                                                                                                                                                                                                                   pc        |->  "c0",
+                                                                                                                                                                                                                                                   old_c     |->  old_c[self],
+                                                                                                                                                                                                                                                   tws       |->  tws[self],
+                                                                                                                                                                                                                                                   alr       |->  alr[self],
+                                                                                                                                                                                                                                                   rmq       |->  rmq[self],
+                                                                                                                                                                                                                                                   all       |->  all[self] ] >>
+                                                                                                                                                                                                                                               \o stack[self]]
+                                                                                                                                                                                                       /\ old_c' = [old_c EXCEPT ![self] = 0]
+                                                                                                                                                                                                       /\ tws' = [tws EXCEPT ![self] = <<>>]
+                                                                                                                                                                                                       /\ alr' = [alr EXCEPT ![self] = FALSE]
+                                                                                                                                                                                                       /\ rmq' = [rmq EXCEPT ![self] = <<>>]
+                                                                                                                                                                                                       /\ pc' = [pc EXCEPT ![self] = "cs_1_ld"]
                                                                                                                                                                                                        /\ UNCHANGED << sem, 
                                                                                                                                                                                                                        note, 
                                                                                                                                                                                                                        nreg, 
                                                                                                                                                                                                                        ret, 
                                                                                                                                                                                                                        muFreed, 
-                                                                                                                                                                                                                       refs >>
-                                                                                                                                                                                                  ELSE /\ IF CurOp(self).op = "notify"
-                                                                                                                                                                                                             THEN /\ ip' = [ip EXCEPT ![self] = ip[self] + 1]
-                                                                                                                                                                                                                  /\ note' = TRUE
-                                                                                                                                                                                                                  /\ sem' = [u \in Waiters |-> IF u \in nreg THEN SetV(sem[u]) ELSE sem[u]]
-                                                                                                                                                                                                                  /\ nreg' = {}
-                                                                                                                                                                                                                  /\ UNCHANGED << ret, 
-                                                                                                                                                                                                                                  muFreed, 
-                                                                                                                                                                                                                                  refs >>
-                                                                                                                                                                                                             ELSE /\ IF CurOp(self).op = "decref"
-                                                                                                                                                                                                                        THEN /\ ip' = [ip EXCEPT ![self] = ip[self] + 1]
-                                                                                                                                                                                                                             /\ ret' = [ret EXCEPT ![self] = IF refs = 1 THEN 1 ELSE 0]
-                                                                                                                                                                                                                             /\ refs' = refs - 1
-                                                                                                                                                                                                                             /\ UNCHANGED muFreed
-                                                                                                                                                                                                                        ELSE /\ IF CurOp(self).op = "freeiflast"
-                                                                                                                                                                                                                                   THEN /\ ip' = [ip EXCEPT ![self] = ip[self] + 1]
-                                                                                                                                                                                                                                        /\ IF ret[self] = 1
-                                                                                                                                                                                                                                              THEN /\ muFreed' = TRUE
-                                                                                                                                                                                                                                              ELSE /\ TRUE
-                                                                                                                                                                                                                                                   /\ UNCHANGED muFreed
-                                                                                                                                                                                                                                   ELSE /\ ip' = [ip EXCEPT ![self] = ip[self] + 1]
-                                                                                                                                                                                                                                        /\ UNCHANGED muFreed
-                                                                                                                                                                                                                             /\ UNCHANGED << ret, 
-                                                                                                                                                                                                                                             refs >>
-                                                                                                                                                                                                                  /\ UNCHANGED << sem, 
-                                                                                                                                                                                                                                  note, 
-                                                                                                                                                                                                                                  nreg >>
-                                                                                                                                                                                                       /\ pc' = [pc EXCEPT ![self] = "c0"]
-                                                                                                                                                                                                       /\ UNCHANGED << stack, 
+                                                                                                                                                                                                                       refs, 
                                                                                                                                                                                                                        dw, 
                                                                                                                                                                                                                        k >>
-                                                                                                                                                                                            /\ UNCHANGED << all, 
-                                                                                                                                                                                                            old_c, 
-                                                                                                                                                                                                            tws, 
-                                                                                                                                                                                                            alr, 
-                                                                                                                                                                                                            rmq >>
-                                                                                                                                                                      /\ UNCHANGED << mw, 
-                                                                                                                                                                                      pool, 
-                                                                                                                                                                                      nalloc, 
-                                                                                                                                                                                      ndl, 
-                                                                                                                                                                                      old, 
-                                                                                                                                                                                      wq >>
-                                                                                                                                                /\ UNCHANGED << dl, 
-                                                                                                                                                                cn, 
-                                                                                                                                                                gen, 
-                                                                                                                                                                old_cv, 
-                                                                                                                                                                lt_c, 
-                                                                                                                                                                rc_c, 
-                                                                                                                                                                so, 
-                                                                                                                                                                out >>
-                                                                                                                          /\ UNCHANGED << c, 
-                                                                                                                                          dl_, 
-                                                                                                                                          cn_, 
-                                                                                                                                          old_mu_w, 
-                                                                                                                                          lt_, 
-                                                                                                                                          first, 
-                                                                                                                                          out_, 
-                                                                                                                                          rc_, 
-                                                                                                                                          hadw, 
-                                                                                                                                          ata, 
-                                                                                                                                          so_, 
-                                                                                                                                          havel >>
-                                                                                                    /\ data' = data
+                                                                                                                                                                                                  ELSE /\ IF CurOp(self).op = "debug"
+                                                                                                                                                                                                             THEN /\ ip' = [ip EXCEPT ![self] = ip[self] + 1]
+                                                                                                                                                                                                                  /\ stack' = [stack EXCEPT ![self] = << [ procedure |->  "debug_state",
+                                                                                                                                                                                                                                                           pc        |->  "c0",
+                                                                                                                                                                                                                                                           dw        |->  dw[self],
+                                                                                                                                                                                                                                                           k         |->  k[self] ] >>
+                                                                                                                                                                                                                                                       \o stack[self]]
+                                                                                                                                                                                                                  /\ dw' = [dw EXCEPT ![self] = 0]
+                                                                                                                                                                                                                  /\ k' = [k EXCEPT ![self] = 0]
+                                                                                                                                                                                                                  /\ pc' = [pc EXCEPT ![self] = "db_1_ld"]
+                                                                                                                                                                                                                  /\ UNCHANGED << sem, 
+                                                                                                                                                                                                                                  note, 
+                                                                                                                                                                                                                                  nreg, 
+                                                                                                                                                                                                                                  ret, 
+                                                                                                                                                                                                                                  muFreed, 
+                                                                                                                                                                                                                                  refs >>
+                                                                                                                                                                                                             ELSE /\ IF CurOp(self).op = "notify"
+                                                                                                                                                                                                                        THEN /\ ip' = [ip EXCEPT ![self] = ip[self] + 1]
+                                                                                                                                                                                                                             /\ note' = TRUE
+                                                                                                                                                                                                                             /\ sem' = [u \in Waiters |-> IF u \in nreg THEN SetV(sem[u]) ELSE sem[u]]
+                                                                                                                                                                                                                             /\ nreg' = {}
+                                                                                                                                                                                                                             /\ UNCHANGED << ret, 
+                                                                                                                                                                                                                                             muFreed, 
+                                                                                                                                                                                                                                             refs >>
+                                                                                                                                                                                                                        ELSE /\ IF CurOp(self).op = "decref"
+                                                                                                                                                                                                                                   THEN /\ ip' = [ip EXCEPT ![self] = ip[self] + 1]
+                                                                                                                                                                                                                                        /\ ret' = [ret EXCEPT ![self] = IF refs = 1 THEN 1 ELSE 0]
+                                                                                                                                                                                                                                        /\ refs' = refs - 1
+                                                                                                                                                                                                                                        /\ UNCHANGED muFreed
+                                                                                                                                                                                                                                   ELSE /\ IF CurOp(self).op = "freeiflast"
+                                                                                                                                                                                                                                              THEN /\ ip' = [ip EXCEPT ![self] = ip[self] + 1]
+                                                                                                                                                                                                                                                   /\ IF ret[self] = 1
+                                                                                                                                                                                                                                                         THEN /\ muFreed' = TRUE
+                                                                                                                                                                                                                                                         ELSE /\ TRUE
+                                                                                                                                                                                                                                                              /\ UNCHANGED muFreed
+                                                                                                                                                                                                                                              ELSE /\ ip' = [ip EXCEPT ![self] = ip[self] + 1]
+                                                                                                                                                                                                                                                   /\ UNCHANGED muFreed
+                                                                                                                                                                                                                                        /\ UNCHANGED << ret, 
+                                                                                                                                                                                                                                                        refs >>
+                                                                                                                                                                                                                             /\ UNCHANGED << sem, 
+                                                                                                                                                                                                                                             note, 
+                                                                                                                                                                                                                                             nreg >>
+                                                                                                                                                                                                                  /\ pc' = [pc EXCEPT ![self] = "c0"]
+                                                                                                                                                                                                                  /\ UNCHANGED << stack, 
+                                                                                                                                                                                                                                  dw, 
+                                                                                                                                                                                                                                  k >>
+                                                                                                                                                                                                       /\ UNCHANGED << all, 
+                                                                                                                                                                                                                       old_c, 
+                                                                                                                                                                                                                       tws, 
+                                                                                                                                                                                                                       alr, 
+                                                                                                                                                                                                                       rmq >>
+                                                                                                                                                                                 /\ UNCHANGED << mw, 
+                                                                                                                                                                                                 pool, 
+                                                                                                                                                                                                 nalloc, 
+                                                                                                                                                                                                 ndl, 
+                                                                                                                                                                                                 old, 
+                                                                                                                                                                                                 wq >>
+                                                                                                                                                           /\ UNCHANGED << dl, 
+                                                                                                                                                                           cn, 
+                                                                                                                                                                           gen, 
+                                                                                                                                                                           old_cv, 
+                                                                                                                                                                           lt_c, 
+                                                                                                                                                                           rc_c, 
+                                                                                                                                                                           so, 
+                                                                                                                                                                           out >>
+                                                                                                                                     /\ UNCHANGED << c, 
+                                                                                                                                                     dl_, 
+                                                                                                                                                     cn_, 
+                                                                                                                                                     old_mu_w, 
+                                                                                                                                                     lt_, 
+                                                                                                                                                     first, 
+                                                                                                                                                     out_, 
+                                                                                                                                                     rc_, 
+                                                                                                                                                     hadw, 
+                                                                                                                                                     ata, 
+                                                                                                                                                     so_, 
+                                                                                                                                                     havel >>
+                                                                                                               /\ data' = data
                                                                               /\ UNCHANGED << held, 
                                                                                               lt_mu_, 
                                                                                               ww, 
